@@ -174,7 +174,7 @@ def race_reports():
 
 def run_go(lines, env_extra=None, race=False, timeout=900, nproc=None, confirm=6):
     """Run case lines on the Go harness.  A case that timed out inside the harness (3 s per case) or was lost in a crashed
-    process is re-run alone with a 30 s limit before it is believed: on a loaded machine a slow case is not a hang."""
+    process is re-run alone with a 15 s limit before it is believed: on a loaded machine a slow case is not a hang."""
     env = dict(os.environ)
     if env_extra:
         env.update(env_extra)
@@ -197,10 +197,12 @@ def run_go(lines, env_extra=None, race=False, timeout=900, nproc=None, confirm=6
         stderr_first += list(LAST_STDERR)
     redo = [l for l in lines if res.get(cid(l), '').startswith('timeout')][:confirm]
     if redo:
-        env2 = dict(env, IVH_TIMEOUT_MS='30000')
-        for l in redo:
-            res.update(_run_chunks(binary, [l], env=env2, timeout=180, nproc=1))
-            stderr_first += list(LAST_STDERR)
+        env2 = dict(env, IVH_TIMEOUT_MS='15000')
+        from concurrent.futures import ThreadPoolExecutor
+        with ThreadPoolExecutor(max_workers=len(redo)) as ex:      # side by side: a tree that stalls costs one limit, not six
+            for r in ex.map(lambda l: _run_chunks(binary, [l], env=env2, timeout=180, nproc=1), redo):
+                res.update(r)
+        stderr_first += list(LAST_STDERR)
     LAST_STDERR[:] = stderr_first
     return res
 
@@ -246,7 +248,7 @@ def cmp_streams(go_streams, model_streams, scale=1.0):
 
 
 # ---------------------------------------------------------------- Lean obligations
-EXTRA_MODULES = {'C03': ['C03Change'], 'C01': ['C01Gen', 'C01Int'], 'C18': ['C18Gen'], 'C05': ['C05Hand', 'C06More'], 'C06': ['C06Hand', 'C06More']}
+EXTRA_MODULES = {'C03': ['C03Change', 'C03MovingSum'], 'C01': ['C01Gen', 'C01Int'], 'C18': ['C18Gen'], 'C05': ['C05Hand', 'C06More'], 'C06': ['C06Hand', 'C06More']}
 
 
 def lean_obligations(prop):
